@@ -528,6 +528,9 @@ class Tr:
             if s == "sx2" and len(pat[1]) == 2:
                 return self.bind(pat[1][0], "(fst %s)" % t, "sx", env,
                                  lambda e2: self.bind(pat[1][1], "(snd %s)" % t, "sx", e2, cont))
+            if s == "list2" and len(pat[1]) == 2:
+                return self.bind(pat[1][0], "(get %s 0)" % t, "num", env,
+                                 lambda e2: self.bind(pat[1][1], "(get %s 1)" % t, "num", e2, cont))
             self.err("array pattern against a %s" % s)
         self.err("pattern %s" % pat[0])
 
@@ -835,6 +838,11 @@ class Tr:
         nums = lambda n: len(a) >= n and all(s == "num" for _, s in a[:n])
         if full in ("V::zero", "V::one") and not a:
             return k(name, "num")
+        if name in ("from", "into") and len(a) == 1 and hasattr(self.mod, "conv"):
+            # one conversion written in terms of another one of src/convert.rs
+            tgt = self.mod.conv.get(a[0][1])
+            if tgt:
+                return k("(%s %s)" % (tgt[0], a[0][0]), tgt[1])
         if name == "check_unit_interval" and nums(1):
             return k("(in_unit %s)" % a[0][0], "res")
         if name == "check_is_one" and nums(1):
@@ -1204,16 +1212,32 @@ def render_convert(path):
     src = strip_comments(open(path).read())
     body = region_text(src, "impl_convert")
     impls = [("g_bop_to_mul", r"impl\s+From<BOpinion<\$ft>>\s+for\s+Opinion1d<\$ft,\s*2>", "bop", "op2"),
-             ("g_mul_to_bop", r"impl\s+From<Opinion1d<\$ft,\s*2>>\s+for\s+BOpinion<\$ft>", "op2", "bop"),
-             ("g_mul_to_bop_ref", r"impl\s+From<&Opinion1d<\$ft,\s*2>>\s+for\s+BOpinion<\$ft>", "op2", "bop")]
+             ("g_mul_to_bop_ref", r"impl\s+From<&Opinion1d<\$ft,\s*2>>\s+for\s+BOpinion<\$ft>", "op2", "bop"),
+             ("g_mul_to_bop", r"impl\s+From<Opinion1d<\$ft,\s*2>>\s+for\s+BOpinion<\$ft>", "op2", "bop")]
     out = [CONVERT_PRELUDE % path]
 
     class M:
+        conv = {}        # sort of the argument -> (generated conversion already defined, its result sort)
+
         def inline(self, name):
             return None
 
         def has(self, region, name):
             return False
+    # a conversion may be written in terms of one defined before it; try the orders until one translates
+    import itertools
+    last = None
+    for order in itertools.permutations(impls):
+        M.conv = {}
+        try:
+            return _render_convert(path, body, list(order), M)
+        except Unsupported as e:
+            last = e
+    raise last
+
+
+def _render_convert(path, body, impls, M):
+    out = [CONVERT_PRELUDE % path]
     for g, hdr, sin, sout in impls:
         m = re.search(hdr + r"\s*\{", body)
         if not m:
@@ -1233,6 +1257,7 @@ def render_convert(path):
         tr.kret = final
         term = tr.block(P(lex(fbody)).block(), {pn: ("x", sin)}, final)
         out.append("Definition %s (x : %s) : %s :=\n  %s.\n" % (g, GTYPE[sin], GTYPE[sout], term))
+        M.conv.setdefault(sin, (g, sout))
     out.append("End ConvGen.\n")
     return "\n".join(out)
 
